@@ -28,6 +28,8 @@ func main() {
 		cmdChains(os.Args[2:])
 	case "seal":
 		cmdSeal(os.Args[2:])
+	case "ordercases":
+		cmdOrderCases(os.Args[2:])
 	default:
 		fatal(2, "unknown subcommand")
 	}
